@@ -224,3 +224,14 @@ Theorem C05_mir_carries_the_recorded_types : forall st couts m fs',
   compile st [] couts = Ok (m, fs') -> mir_carries_recorded_types st couts m.
 Proof. exact compile_carries_recorded_types. Qed.
 Print Assumptions C05_mir_carries_the_recorded_types.
+
+(* End to end, whole surface language: in the MIR of EVERY program each output carries the type of the VALUE the
+   program returned for it ([to_mir] of the value bound to the returned variable), which is the type recorded for
+   the operation the output names (coherence at the end of the trace + the compile model). *)
+From NadaV.Proofs Require Import C05Outputs.
+Theorem C05_outputs_have_the_type_of_the_returned_value : forall p m,
+  Compile.run GenScalar.G p = Ok m ->
+  exists ρ s', exec GenScalar.G (stmts_size (p_stmts p)) [] (p_stmts p) init_state = Ok (ρ, s')
+              /\ Forall2 (typed_like_the_value ρ (store s')) (p_outs p) (m_outputs m).
+Proof. exact (outputs_have_the_type_of_the_returned_value GenScalar.G). Qed.
+Print Assumptions C05_outputs_have_the_type_of_the_returned_value.
